@@ -60,6 +60,21 @@ def _forced_program(rng, m, entry, novmap, dtype):
     if novmap:
         nodes.append({"op": "novmap", "args": [["n", 0]]})
     src = ["n", len(nodes) - 1]
+    if entry == "backward" and m >= 2 and rng.integers(0, 2):
+        # two differentiated tensors, each with a part of the graph of its own (hooked too): every sweep goes through
+        # both parts, also when all the cotangents of one tensor are zero in that chunk
+        a = int(rng.integers(1, m))
+        outputs, hook2 = [], None
+        for part in (a, m - a):
+            leaves.append({"shape": [part], "rg": True, "vals": (rng.integers(-8, 9, size=part) / 4.0).tolist()})
+            C = rng.integers(-2, 3, size=(part, n1)).astype(float)
+            C[C == 0] = 1.0
+            nodes.append({"op": "mul", "coerce": "dense", "C": C.tolist(), "args": [["l", len(leaves) - 1], src]})
+            if hook2 is None:
+                hook2 = ["n", len(nodes) - 1]
+            nodes.append({"op": "tanh", "args": [["n", len(nodes) - 1]]})
+            outputs.append(["n", len(nodes) - 1])
+        return {"dtype": dtype, "leaves": leaves, "nodes": nodes, "outputs": outputs, "hook": ["n", 0], "hook2": hook2}
     if entry == "backward":
         leaves.append({"shape": [m], "rg": True, "vals": (rng.integers(-8, 9, size=m) / 4.0).tolist()})
         C = rng.integers(-2, 3, size=(m, n1)).astype(float)
@@ -140,8 +155,12 @@ def _run(case, k, hook_ref=None):
     prog, dtype = case["prog"], case["prog"]["dtype"]
     g = P.TorchGraph(prog)
     sweeps = []
+    sweeps2 = []
     if hook_ref is not None:
         g.get(hook_ref).register_hook(lambda gr: sweeps.append(_batch_size(gr)) or None)
+        if prog.get("hook2") is not None:
+            g.get(prog["hook2"]).register_hook(lambda gr: sweeps2.append(_batch_size(gr)) or None)
+    g.sweeps2 = sweeps2
     agg = jdcheck.make_recording(case["agg"], dtype)
     if case["entry"] == "backward":
         backward([g.get(r) for r in prog["outputs"]], agg, retain_graph=case["retain"], parallel_chunk_size=k)
@@ -196,6 +215,12 @@ def run_case(case) -> Outcome:
                        f"leaf {i}: k={k} gives {a.grad.tolist()}, k=1 gives {b.grad.tolist()} (m={m})")
     if hook is not None:
         want = math.ceil(m / keff)
+        if prog.get("hook2") is not None:
+            out.cls("two-tensor-specific-hook")
+            s2 = g.sweeps2
+            out.check(len(s2) == want, "sweep-count-on-tensor-specific-part",
+                      f"m={m}, k={k}: the part of the graph below the first differentiated tensor was traversed {len(s2)} times, "
+                      f"expected ceil(m/k) = {want}")
         out.check(len(sweeps) == want, "sweep-count",
                   f"m={m}, k={k}: {len(sweeps)} sweeps through the graph, expected ceil(m/k) = {want} (batch sizes {sweeps})")
         if _HAVE_FT and len(sweeps) == want:
